@@ -349,12 +349,14 @@ func init() {
 	register(&Check{
 		ID:    "C20",
 		Level: "model_checking",
-		Rule: "journals with 0..2 (thorough 0..3) trips x 0..2 stop times per trip (full product over the counts) x k deviations (quick 2, thorough 3) over presence of track/arrival/departure/marked-past, direction (0/1/unspecified/out-of-range), id shapes (NYCT-like, empty, spaces, leading space, non-ASCII, invalid UTF-8, characters such as + & < > ' ; | \\ that are special in other formats but not in CSV), counters (negative, zero, large), zero start times, present optional times that are the zero time.Time, instants with sub-second parts of 0.5 s and more, a stop time repeated verbatim after itself; journals of 7..4099 trips (around powers of two, not multiples of 8) x 4 patterns of stop times per trip; " +
+		Rule: "journals with 0..2 trips x 0..2 stop times per trip (full product over the counts) x k <= 2 deviations (thorough: 0..3 trips with k <= 2, 0..2 trips with k <= 3, 0..1 trip with k <= 4) over presence of track/arrival/departure/marked-past, direction (0/1/unspecified/out-of-range), id shapes (NYCT-like, empty, spaces, leading space, non-ASCII, invalid UTF-8, characters such as + & < > ' ; | \\ that are special in other formats but not in CSV), counters (negative, zero, large), zero start times, present optional times that are the zero time.Time, instants with sub-second parts of 0.5 s and more, a stop time repeated verbatim after itself; journals of 7..4099 trips (around powers of two, not multiples of 8) x 4 patterns of stop times per trip; " +
 			"non-trivial = distinct journals with at least one trip; oracle = read back with encoding/csv by header name, cell-by-cell, journal dumped before/after, tables re-read after another journal was exported",
 		Assumptions: []string{"ids and tracks are free of comma, double quote, CR and LF, as the property stipulates", "header names of the two tables are part of the observable interface"},
 		Scenarios: func(tier string) []*Scenario {
 			if tier == "thorough" {
-				return []*Scenario{{Name: "journals<=3trips", Bound: 3, Run: c20Harness(3)}, {Name: "journals<=2trips-k4", Bound: 4, Run: c20Harness(2)}, {Name: "sizes", Bound: -1, Run: c20Sizes}}
+				// sized to finish well inside the time cap (the product over three trips with three deviations alone
+				// is beyond it): more trips with fewer deviations, fewer trips with more
+				return []*Scenario{{Name: "journals<=3trips", Bound: 2, Run: c20Harness(3)}, {Name: "journals<=2trips-k3", Bound: 3, Run: c20Harness(2)}, {Name: "journals<=1trip-k4", Bound: 4, Run: c20Harness(1)}, {Name: "sizes", Bound: -1, Run: c20Sizes}}
 			}
 			return []*Scenario{{Name: "journals<=2trips", Bound: 2, Run: c20Harness(2)}, {Name: "sizes", Bound: -1, Run: c20Sizes}}
 		},
